@@ -291,17 +291,7 @@ def drop_op(ops, i):
 
 # ------------------------------------------------------------------ running
 def build_all(run, targets, audit_file, allow=()):
-    hits = coqtools.banned_scan()
-    run.oblige("no Admitted/admit/Axiom/Parameter/guard-off anywhere in coq/", not hits, str(hits[:5]))
-    ok, lg = coqtools.make(targets)
-    run.oblige("make " + " ".join(targets), ok, lg[-3000:])
-    if ok:
-        a = coqtools.audit(audit_file, allow_axioms=allow)
-        run.axioms |= a["axioms"]
-        run.oblige("audit %s: %d Check pins, %d/%d Print Assumptions, axioms allowed" % (audit_file, a["n_pins"], a["n_print"], a["n_expected"]),
-                   a["ok"], a["log"] + str(a["bad_axioms"]))
-        run.extra["theorems_audited"] = a["n_print"]
-    run.checker_cmd = "coq_makefile + make (coqc 8.16.1, full .vo) %s; coqc coq/audit/%s" % (" ".join(targets), audit_file)
+    coqtools.prove(run, targets, audit_file, allow)
     okb, bindir, blog = harness.build("vp-zdd")
     if not okb:
         run.tie_broken("harness build vp-zdd", blog[-3000:])
